@@ -224,16 +224,28 @@ def registry_tables():
     lines = []
     lines.append('def registry : List String := %s' % lean_list([lean_str(n) for n in formulas.supported()]))
     doc = []
+    heading_count = 0
     path = os.path.join(common.REPO, 'SUPPORTED_FORMULAS.md')
     try:
         with open(path, encoding='utf-8') as f:
+            # only the bullets under the heading "# Supported Formulas - <n>" are listed as supported;
+            # the file goes on with "# Not Yet Supported Formulas - <n>"
+            in_supported = False
             for line in f:
+                h = re.match(r'^\s*#+\s*(.*?)\s*$', line)
+                if h:
+                    in_supported = h.group(1).lower().startswith('supported')
+                    hc = re.search(r'(\d+)\s*$', h.group(1))
+                    if in_supported and hc:
+                        heading_count = int(hc.group(1))
+                    continue
                 m = re.match(r'^\s*[-*]\s+`?([A-Za-z0-9_.]+)`?\s*$', line)
-                if m:
+                if m and in_supported:
                     doc.append(m.group(1))
     except IOError:
         pass
     lines.append('def documented : List String := %s' % lean_list([lean_str(n) for n in doc]))
+    lines.append('def documentedHeadingCount : Nat := %d' % heading_count)
     p = hotxlfp.Parser()
     def vdesc(v):
         if v is True:
